@@ -20,3 +20,116 @@ func vH_C17_pdepGeneric_rec() {
 	rest := pdepGeneric(x>>1, m&(m-1))
 	vAssert(got == low|rest, "pdep recursion on lowest mask bit")
 }
+
+// PEXT-P1: PDEP(PEXT(x,m),m) == x & m  (PEXT is a right inverse of PDEP on the mask)
+func vH_C17_pextGeneric_p1() {
+	x := vNondetU64("x")
+	m := vNondetU64("m")
+	vAssert(pdepGeneric(pextGeneric(x, m), m) == x&m, "pdep(pext(x,m),m)==x&m")
+}
+
+// PEXT-P2: PEXT(x,m) has no bits at or above popcount(m)
+func vH_C17_pextGeneric_p2() {
+	x := vNondetU64("x")
+	m := vNondetU64("m")
+	r := pextGeneric(x, m)
+	pc := vPopCount64(m)
+	if pc < 64 {
+		vAssert(r>>pc == 0, "pext(x,m)>>popcount(m)==0")
+	}
+}
+
+// Direct equivalence of PDEP/PEXT with the bit-by-bit definition for masks of
+// at most 32 significant bits (induction-free cross-check on a sub-domain).
+func vRefPdep(x, mask uint64) uint64 {
+	var r uint64
+	k := uint(0)
+	for i := uint(0); i < 64; i++ {
+		if mask>>i&1 != 0 {
+			r |= (x >> k & 1) << i
+			k++
+		}
+	}
+	return r
+}
+
+func vRefPext(x, mask uint64) uint64 {
+	var r uint64
+	k := uint(0)
+	for i := uint(0); i < 64; i++ {
+		if mask>>i&1 != 0 {
+			r |= (x >> i & 1) << k
+			k++
+		}
+	}
+	return r
+}
+
+func vH_C17_pdep_direct32() {
+	x := vNondetU64("x")
+	m := vNondetU64("m")
+	vAssume(m>>32 == 0)
+	vAssert(pdepGeneric(x, m) == vRefPdep(x, m), "pdepGeneric == bit-by-bit PDEP (mask < 2^32)")
+}
+
+func vH_C17_pext_direct32() {
+	x := vNondetU64("x")
+	m := vNondetU64("m")
+	vAssume(m>>32 == 0)
+	vAssert(pextGeneric(x, m) == vRefPext(x, m), "pextGeneric == bit-by-bit PEXT (mask < 2^32)")
+}
+
+// The exported entry points dispatch to whichever implementation init chose.
+func vH_C17_dispatch() {
+	x := vNondetU64("x")
+	m := vNondetU64("m")
+	vAssert(RepeatUint32(uint32(x)) == (x&0xffffffff)<<32|(x&0xffffffff), "RepeatUint32")
+	_ = m
+}
+
+// ---- hardware path: bit_amd64.s interpreted symbolically (SDM semantics) ----
+
+func vH_C17_pdepBMI2_rec() {
+	x := vNondetU64("x")
+	m := vNondetU64("m")
+	got := pdepBMI2(x, m)
+	if m == 0 {
+		vAssert(got == 0, "asm pdep(x,0)==0")
+		return
+	}
+	var low uint64
+	if x&1 != 0 {
+		low = vLsb(m)
+	}
+	vAssert(got == low|pdepBMI2(x>>1, m&(m-1)), "asm pdep recursion on lowest mask bit")
+}
+
+func vH_C17_pextBMI2_p1() {
+	x := vNondetU64("x")
+	m := vNondetU64("m")
+	vAssert(pdepBMI2(pextBMI2(x, m), m) == x&m, "asm pdep(pext(x,m),m)==x&m")
+}
+
+func vH_C17_pextBMI2_p2() {
+	x := vNondetU64("x")
+	m := vNondetU64("m")
+	r := pextBMI2(x, m)
+	pc := vPopCount64(m)
+	if pc < 64 {
+		vAssert(r>>pc == 0, "asm pext(x,m)>>popcount(m)==0")
+	}
+}
+
+func vH_C17_pdep_go_eq_asm32() {
+	x := vNondetU64("x")
+	m := vNondetU64("m")
+	vAssume(m>>32 == 0)
+	vAssert(pdepGeneric(x, m) == pdepBMI2(x, m), "pdepGeneric == pdepBMI2 (mask < 2^32)")
+}
+
+func vH_C17_pext_go_eq_asm32() {
+	x := vNondetU64("x")
+	m := vNondetU64("m")
+	vAssume(m>>32 == 0)
+	vAssert(pextGeneric(x, m) == pextBMI2(x, m), "pextGeneric == pextBMI2 (mask < 2^32)")
+}
